@@ -82,6 +82,11 @@ class LoopContext:
     continue_jumps: List[int] = field(default_factory=list)
     label: Optional[str] = None
     is_loop: bool = True  # False for switch statements (break only, no continue)
+    # Labels attached directly to this loop (targets of "continue label")
+    labels: List[str] = field(default_factory=list)
+    # Operand-stack slots the construct holds while its body runs
+    # (for-in/for-of iterator, switch discriminant)
+    stack_slots: int = 0
 
 
 @dataclass
@@ -89,6 +94,9 @@ class TryContext:
     """Context for try-finally blocks (for break/continue/return)."""
 
     finalizer: Any = None  # The finally block AST node
+    handler_active: bool = True  # A TRY_START handler is installed right now
+    in_finalizer: bool = False  # Compiling the finally block on the exception path
+    stack_slots: int = 0  # 1 while a pending exception sits on the operand stack
 
 
 class Compiler:
@@ -99,10 +107,10 @@ class Compiler:
         self.constants: List[Any] = []
         self.names: List[str] = []
         self.locals: List[str] = []
-        self.loop_stack: List[LoopContext] = []
-        self.try_stack: List[TryContext] = (
-            []
-        )  # Track try-finally for break/continue/return
+        # Enclosing loops/switches/labels (LoopContext) and try statements (TryContext)
+        # of the current function, outermost first: what break/continue/return leave
+        self.loop_stack: List[Any] = []
+        self._pending_labels: List[str] = []  # labels waiting for the next loop
         self.functions: List[CompiledFunction] = []
         self._in_function: bool = False  # Track if we're compiling inside a function
         self._outer_locals: List[List[str]] = []  # Stack of outer scope locals
@@ -202,12 +210,43 @@ class Compiler:
         self.bytecode[pos + 1] = target & 0xFF  # Low byte
         self.bytecode[pos + 2] = (target >> 8) & 0xFF  # High byte
 
-    def _emit_pending_finally_blocks(self) -> None:
-        """Emit all pending finally blocks (for break/continue/return)."""
-        # Emit finally blocks in reverse order (innermost first)
-        for try_ctx in reversed(self.try_stack):
-            if try_ctx.finalizer:
-                self._compile_statement(try_ctx.finalizer)
+    def _emit_unwind(self, target: Optional[LoopContext], leave_target: bool) -> None:
+        """Emit what a jump must do for every construct it leaves, innermost first:
+        pop the exception handler of a try block, run its finally block, and pop the
+        operand slots (iterator, discriminant, pending exception) the construct holds.
+
+        target is the loop context jumped to (None for return: leave everything);
+        leave_target says whether the target construct itself is exited (break).
+        """
+        scopes = self.loop_stack
+        for i in range(len(scopes) - 1, -1, -1):
+            scope = scopes[i]
+            if scope is target:
+                if leave_target:
+                    for _ in range(scope.stack_slots):
+                        self._emit(OpCode.POP)
+                break
+            if isinstance(scope, TryContext):
+                if scope.handler_active:
+                    self._emit(OpCode.TRY_END)
+                if target is not None:
+                    # (return needs no pops: RETURN discards the frame's operands)
+                    for _ in range(scope.stack_slots):
+                        self._emit(OpCode.POP)
+                if scope.finalizer and not scope.in_finalizer:
+                    # The finally block runs outside its own try statement
+                    self.loop_stack = scopes[:i]
+                    self._compile_statement(scope.finalizer)
+                    self.loop_stack = scopes
+            elif target is not None:
+                for _ in range(scope.stack_slots):
+                    self._emit(OpCode.POP)
+
+    def _new_loop_context(self, **kwargs) -> LoopContext:
+        """Create the context of a loop statement, claiming the labels put on it."""
+        ctx = LoopContext(labels=self._pending_labels, **kwargs)
+        self._pending_labels = []
+        return ctx
 
     def _add_constant(self, value: Any) -> int:
         """Add a constant and return its index."""
@@ -453,7 +492,7 @@ class Compiler:
                 self._patch_jump(jump_false)
 
         elif isinstance(node, WhileStatement):
-            loop_ctx = LoopContext()
+            loop_ctx = self._new_loop_context()
             self.loop_stack.append(loop_ctx)
 
             loop_start = len(self.bytecode)
@@ -476,7 +515,7 @@ class Compiler:
             self.loop_stack.pop()
 
         elif isinstance(node, DoWhileStatement):
-            loop_ctx = LoopContext()
+            loop_ctx = self._new_loop_context()
             self.loop_stack.append(loop_ctx)
 
             loop_start = len(self.bytecode)
@@ -497,7 +536,7 @@ class Compiler:
             self.loop_stack.pop()
 
         elif isinstance(node, ForStatement):
-            loop_ctx = LoopContext()
+            loop_ctx = self._new_loop_context()
             self.loop_stack.append(loop_ctx)
 
             # Init
@@ -539,7 +578,7 @@ class Compiler:
             self.loop_stack.pop()
 
         elif isinstance(node, ForInStatement):
-            loop_ctx = LoopContext()
+            loop_ctx = self._new_loop_context(stack_slots=1)
             self.loop_stack.append(loop_ctx)
 
             # Compile object expression
@@ -608,7 +647,7 @@ class Compiler:
             self.loop_stack.pop()
 
         elif isinstance(node, ForOfStatement):
-            loop_ctx = LoopContext()
+            loop_ctx = self._new_loop_context(stack_slots=1)
             self.loop_stack.append(loop_ctx)
 
             # Compile iterable expression
@@ -660,13 +699,12 @@ class Compiler:
             self.loop_stack.pop()
 
         elif isinstance(node, BreakStatement):
-            if not self.loop_stack:
-                raise SyntaxError("'break' outside of loop")
-
             # Find the right loop context (labeled or innermost loop/switch)
             target_label = node.label.name if node.label else None
             ctx = None
             for loop_ctx in reversed(self.loop_stack):
+                if isinstance(loop_ctx, TryContext):
+                    continue
                 if target_label is not None:
                     # Labeled break - find the matching label
                     if loop_ctx.label == target_label:
@@ -686,42 +724,40 @@ class Compiler:
                 else:
                     raise SyntaxError("'break' outside of loop")
 
-            # Emit pending finally blocks before the break
-            self._emit_pending_finally_blocks()
+            # Leave every construct between here and the target, and the target itself
+            self._emit_unwind(ctx, leave_target=True)
 
             pos = self._emit_jump(OpCode.JUMP)
             ctx.break_jumps.append(pos)
 
         elif isinstance(node, ContinueStatement):
-            if not self.loop_stack:
-                raise SyntaxError("'continue' outside of loop")
-
             # Find the right loop context (labeled or innermost loop, not switch)
             target_label = node.label.name if node.label else None
             ctx = None
             for loop_ctx in reversed(self.loop_stack):
-                # Skip non-loop contexts (like switch) unless specifically labeled
-                if not loop_ctx.is_loop and target_label is None:
+                if isinstance(loop_ctx, TryContext) or not loop_ctx.is_loop:
                     continue
-                if target_label is None or loop_ctx.label == target_label:
+                if target_label is None or target_label in loop_ctx.labels:
                     ctx = loop_ctx
                     break
 
             if ctx is None:
-                raise SyntaxError(f"label '{target_label}' not found")
+                if target_label:
+                    raise SyntaxError(f"label '{target_label}' not found")
+                raise SyntaxError("'continue' outside of loop")
 
-            # Emit pending finally blocks before the continue
-            self._emit_pending_finally_blocks()
+            # Leave every construct between here and the target loop
+            self._emit_unwind(ctx, leave_target=False)
 
             pos = self._emit_jump(OpCode.JUMP)
             ctx.continue_jumps.append(pos)
 
         elif isinstance(node, ReturnStatement):
-            # Emit pending finally blocks before the return
-            self._emit_pending_finally_blocks()
-
+            # The argument is evaluated first, then the pending finally blocks run
             if node.argument:
                 self._compile_expression(node.argument)
+            self._emit_unwind(None, leave_target=True)
+            if node.argument:
                 self._emit(OpCode.RETURN)
             else:
                 self._emit(OpCode.RETURN_UNDEFINED)
@@ -732,22 +768,24 @@ class Compiler:
             self._emit(OpCode.THROW)
 
         elif isinstance(node, TryStatement):
-            # Push TryContext if there's a finally block so break/continue/return
-            # can inline the finally code
-            if node.finalizer:
-                self.try_stack.append(TryContext(finalizer=node.finalizer))
+            # Register the try statement so break/continue/return inside it can pop
+            # its handler and run its finally block
+            try_ctx = TryContext(finalizer=node.finalizer)
+            self.loop_stack.append(try_ctx)
 
             # Try block
             try_start = self._emit_jump(OpCode.TRY_START)
 
             self._compile_statement(node.block)
             self._emit(OpCode.TRY_END)
+            try_ctx.handler_active = False
 
             # Jump past exception handler to normal finally
-            jump_to_finally = self._emit_jump(OpCode.JUMP)
+            jumps_to_finally = [self._emit_jump(OpCode.JUMP)]
 
             # Exception handler
             self._patch_jump(try_start)
+            catch_guard = None
             if node.handler:
                 # Has catch block
                 self._emit(OpCode.CATCH)
@@ -757,20 +795,29 @@ class Compiler:
                 slot = self._get_local(name)
                 self._emit(OpCode.STORE_LOCAL, slot)
                 self._emit(OpCode.POP)
+                if node.finalizer:
+                    # Guard the catch clause: if it throws, finally still runs
+                    catch_guard = self._emit_jump(OpCode.TRY_START)
+                    try_ctx.handler_active = True
                 self._compile_statement(node.handler.body)
+                if catch_guard is not None:
+                    self._emit(OpCode.TRY_END)
+                    try_ctx.handler_active = False
+                    jumps_to_finally.append(self._emit_jump(OpCode.JUMP))
+                    self._patch_jump(catch_guard)
                 # Fall through to finally
-            elif node.finalizer:
-                # No catch, only finally - exception is on stack
-                # Run finally then rethrow
+            if node.finalizer and (not node.handler or catch_guard is not None):
+                # Exception path: the exception is on the stack; run finally, rethrow
+                try_ctx.in_finalizer = True
+                try_ctx.stack_slots = 1
                 self._compile_statement(node.finalizer)
                 self._emit(OpCode.THROW)  # Rethrow the exception
 
-            # Pop TryContext before compiling normal finally
-            if node.finalizer:
-                self.try_stack.pop()
+            self.loop_stack.pop()
 
             # Normal finally block (after try completes normally or after catch)
-            self._patch_jump(jump_to_finally)
+            for pos in jumps_to_finally:
+                self._patch_jump(pos)
             if node.finalizer:
                 self._compile_statement(node.finalizer)
 
@@ -796,7 +843,8 @@ class Compiler:
 
             # Case bodies
             case_positions = []
-            loop_ctx = LoopContext(is_loop=False)  # For break statements only
+            # For break statements only; the discriminant stays on the stack meanwhile
+            loop_ctx = LoopContext(is_loop=False, stack_slots=1)
             self.loop_stack.append(loop_ctx)
 
             for i, case in enumerate(node.cases):
@@ -854,8 +902,22 @@ class Compiler:
             loop_ctx = LoopContext(label=node.label.name, is_loop=False)
             self.loop_stack.append(loop_ctx)
 
-            # Compile the labeled body
+            # Compile the labeled body; a loop directly inside takes the label too,
+            # so that "continue label" finds it
+            if isinstance(
+                node.body,
+                (
+                    WhileStatement,
+                    DoWhileStatement,
+                    ForStatement,
+                    ForInStatement,
+                    ForOfStatement,
+                    LabeledStatement,
+                ),
+            ):
+                self._pending_labels = self._pending_labels + [node.label.name]
             self._compile_statement(node.body)
+            self._pending_labels = []
 
             # Patch break jumps that target this label
             for pos in loop_ctx.break_jumps:
